@@ -94,7 +94,24 @@ def _member(node, base):
     raise KeyError("not a %s member: %s" % (base, ast.unparse(node)))
 
 
+def tracked_item(o):
+    """`o.item` that also records which source items came out different from their pinned value (the harness uses it
+    to tell "the model follows a changed source" from "the model is wrong on the unchanged source")."""
+    import json as _json
+
+    moved = o.json.setdefault("arrow.differs_from_pinned", [])
+
+    def item(key, getter, pinned):
+        v = o.item(key, getter, pinned)
+        if not key.startswith("arrow.env.") and \
+                _json.dumps(v, sort_keys=True, default=repr) != _json.dumps(pinned, sort_keys=True, default=repr):
+            moved.append(key)
+        return v
+    return item
+
+
 def generate(o):
+    item = tracked_item(o)
     schema = Src("orso/schema.py")
     tools = Src("orso/tools.py")
     types = Src("orso/types.py")
@@ -107,7 +124,7 @@ def generate(o):
             raise KeyError("pyarrow not importable")
         return {k[5:]: int(getattr(lib, k)) for k in sorted(dir(lib)) if k.startswith("Type_")}
 
-    ids = o.item("arrow.env.type_ids", type_ids, PINNED_TYPE_IDS)
+    ids = item("arrow.env.type_ids", type_ids, PINNED_TYPE_IDS)
     by_num = {v: k for k, v in ids.items()}
 
     def dec_range():
@@ -126,7 +143,7 @@ def generate(o):
             raise KeyError("decimal128 precision range is not an interval")
         return [good[0], good[-1]]
 
-    drange = o.item("arrow.env.decimal128_precision_range", dec_range, [1, 38])
+    drange = item("arrow.env.decimal128_precision_range", dec_range, [1, 38])
 
     # ---- schema.py: DECIMAL_PRECISION
     def decimal_precision():
@@ -146,7 +163,7 @@ def generate(o):
                 raise KeyError("DECIMAL_PRECISION = " + ast.unparse(val))
         raise KeyError("DECIMAL_PRECISION")
 
-    dprec = o.item("arrow.DECIMAL_PRECISION", decimal_precision, 28)
+    dprec = item("arrow.DECIMAL_PRECISION", decimal_precision, 28)
 
     # ---- schema.py: arrow_field
     def spec(node):
@@ -193,7 +210,7 @@ def generate(o):
                 return [[_member(k, "OrsoTypes"), spec(v)] for k, v in zip(val.keys, val.values)]
         raise KeyError("type_map literal in arrow_field")
 
-    fmap = o.item("arrow.arrow_field.type_map", field_map, PINNED_FIELD_MAP)
+    fmap = item("arrow.arrow_field.type_map", field_map, PINNED_FIELD_MAP)
 
     def get_default(attr_name):
         """default of `type_map.get(self.<attr_name>, <default>)` in arrow_field."""
@@ -205,8 +222,8 @@ def generate(o):
                 return spec(n.args[1])
         raise KeyError("type_map.get(self.%s, …)" % attr_name)
 
-    fdefault = o.item("arrow.arrow_field.default", lambda: get_default("type"), ["prim", "STRING"])
-    edefault = o.item("arrow.arrow_field.element_default", lambda: get_default("element_type"), ["prim", "STRING"])
+    fdefault = item("arrow.arrow_field.default", lambda: get_default("type"), ["prim", "STRING"])
+    edefault = item("arrow.arrow_field.element_default", lambda: get_default("element_type"), ["prim", "STRING"])
 
     def array_branch():
         """`if self.type == OrsoTypes.ARRAY: return pyarrow.field(..., type=pyarrow.list_(type_map.get(self.element_type, …)))`"""
@@ -219,7 +236,7 @@ def generate(o):
                         return CTOR_IDS[m.func.attr]
         raise KeyError("ARRAY branch of arrow_field")
 
-    alist = o.item("arrow.arrow_field.array_branch", array_branch, "LIST")
+    alist = item("arrow.arrow_field.array_branch", array_branch, "LIST")
 
     def field_kwargs():
         """Does arrow_field pass name=self.name (and nullable=…) to pyarrow.field?"""
@@ -238,7 +255,7 @@ def generate(o):
             raise KeyError("pyarrow.field call")
         return res
 
-    fkw = o.item("arrow.arrow_field.field_kwargs", field_kwargs, [True, False])
+    fkw = item("arrow.arrow_field.field_kwargs", field_kwargs, [True, False])
 
     # ---- tools.py: arrow_type_map
     atm_state = {}
@@ -262,7 +279,7 @@ def generate(o):
                 return out
         raise KeyError("type_map literal in arrow_type_map")
 
-    tmap = o.item("arrow.arrow_type_map.type_map", type_map, PINNED_TYPE_MAP)
+    tmap = item("arrow.arrow_type_map.type_map", type_map, PINNED_TYPE_MAP)
 
     def other_branches():
         """The branches after the table lookup: a set of decimal ids -> DecimalFactory; literal ids -> class."""
@@ -295,7 +312,7 @@ def generate(o):
             raise KeyError("decimal branch of arrow_type_map")
         return [dec, lit]
 
-    dec_ids, lit_ids = o.item("arrow.arrow_type_map.branches", other_branches, [["DECIMAL128", "DECIMAL256"], [[18, "datetime"]]])
+    dec_ids, lit_ids = item("arrow.arrow_type_map.branches", other_branches, [["DECIMAL128", "DECIMAL256"], [[18, "datetime"]]])
 
     # ---- types.py: ORSO_TO_PYTHON_MAP and its inversion
     def orso_to_python():
@@ -309,7 +326,7 @@ def generate(o):
                 return [[_member(k, "OrsoTypes"), _cls_name(v)] for k, v in zip(val.keys, val.values)]
         raise KeyError("ORSO_TO_PYTHON_MAP")
 
-    o2p = o.item("arrow.ORSO_TO_PYTHON_MAP", orso_to_python, PINNED_ORSO_TO_PYTHON)
+    o2p = item("arrow.ORSO_TO_PYTHON_MAP", orso_to_python, PINNED_ORSO_TO_PYTHON)
 
     def inversion():
         excluded, extra = None, []
@@ -343,7 +360,7 @@ def generate(o):
             raise KeyError("PYTHON_TO_ORSO_MAP")
         return [excluded, extra]
 
-    p2o_excl, p2o_extra = o.item("arrow.PYTHON_TO_ORSO_MAP", inversion, [["JSONB"], [["tuple", "ARRAY"], ["set", "ARRAY"]]])
+    p2o_excl, p2o_extra = item("arrow.PYTHON_TO_ORSO_MAP", inversion, [["JSONB"], [["tuple", "ARRAY"], ["set", "ARRAY"]]])
 
     def orso_types():
         for n in types.tree.body:
@@ -356,7 +373,7 @@ def generate(o):
                     return names
         raise KeyError("OrsoTypes")
 
-    otypes = o.item("arrow.OrsoTypes", orso_types, PINNED_ORSO_TYPES)
+    otypes = item("arrow.OrsoTypes", orso_types, PINNED_ORSO_TYPES)
 
     # ---- schema.py: FlatColumn.from_arrow — what is carried from the field
     def carried():
@@ -364,13 +381,39 @@ def generate(o):
         for n in ast.walk(fn):
             if isinstance(n, ast.Return) and isinstance(n.value, ast.Call) and ast.unparse(n.value.func) in ("FlatColumn", "cls"):
                 kw = {k.arg: ast.unparse(k.value) for k in n.value.keywords}
-                return [kw.get("name") in ("str(arrow_field.name)", "arrow_field.name"),
-                        kw.get("nullable") == "arrow_field.nullable",
+
+                def through_locals(text):
+                    # `name=name` with `name = <expr>` assigned once in the function: read the expression
+                    for _ in range(3):
+                        if text is None or not text.isidentifier():
+                            break
+                        vals = [ast.unparse(a.value) for a in ast.walk(fn) if isinstance(a, ast.Assign) and len(a.targets) == 1
+                                and isinstance(a.targets[0], ast.Name) and a.targets[0].id == text]
+                        if len(vals) != 1:
+                            raise KeyError("local %s assigned %d times" % (text, len(vals)))
+                        text = vals[0]
+                    return text
+
+                def carried_exactly(text, attr, wrappers):
+                    # absent: not carried; the attribute itself (or str()/bool() of it): carried; any other
+                    # expression over the attribute (normalised, stripped, lower-cased, negated ...): not carried
+                    # exactly; anything that does not mention the attribute: not recognised -> degrade
+                    text = through_locals(text)
+                    if text is None:
+                        return False
+                    if text == attr or text in [w + "(" + attr + ")" for w in wrappers]:
+                        return True
+                    if attr in text:
+                        return False
+                    raise KeyError("FlatColumn(%s=%s)" % (attr.split(".")[-1], text[:30]))
+
+                return [carried_exactly(kw.get("name"), "arrow_field.name", ("str",)),
+                        carried_exactly(kw.get("nullable"), "arrow_field.nullable", ("bool",)),
                         kw.get("scale") == "scale" and kw.get("precision") == "precision",
                         kw.get("element_type") == "element_type"]
         raise KeyError("FlatColumn(...) call in from_arrow")
 
-    car = o.item("arrow.from_arrow.carried", carried, [True, True, True, True])
+    car = item("arrow.from_arrow.carried", carried, [True, True, True, True])
 
     # ---- converters.py: BATCH_SIZE
     def batch_size():
@@ -386,7 +429,7 @@ def generate(o):
                 return val.value
         raise KeyError("BATCH_SIZE")
 
-    bsize = o.item("arrow.BATCH_SIZE", batch_size, 10000)
+    bsize = item("arrow.BATCH_SIZE", batch_size, 10000)
 
     # ---- emit
     def lean_spec(s):
